@@ -162,6 +162,9 @@ class Parser(object):
                     self._parser_check(not bound.optional,
                                        "Sizer of '{}' cannot be optional".format(name),
                                        line, pos)
+                    self._parser_check(not bound.is_array,
+                                       "Sizer of '{}' cannot be an array".format(name),
+                                       line, pos)
                 else:
                     self._parser_error("Sizer of '{}' has to be defined before the array".format(name),
                                        line, pos)
